@@ -61,6 +61,10 @@ def handle (st : DState) (line : String) : DState × String :=
             | _ => (st, "bad-op")
           else if op == "fromhex" then
             (st, showExcept showIntList (Py.fromhex xs0))
+          else if op == "split" then
+            match xs0 with
+            | sep :: txt => (st, " | ".intercalate ((Py.splitCode sep txt).map showIntList))
+            | [] => (st, "bad-op")
           else if op == "subws" then
             (st, showIntList (Py.subWs xs0))
           else if op == "range" then
